@@ -37,7 +37,12 @@ pub fn check(ctx: &Ctx, t: &mut Tape<'_>, r: &mut Report) -> CheckResult {
     let off = if t.chance(128) { t.idx(bs) } else { 0 };
     let p = Pos { blk, off };
     let reach = gen_reach(t, p, bs);
-    let len = gen_msg_len(t, bs, 8);
+    let mut len = gen_msg_len(t, bs, 8);
+    // the request must stay inside the keystream (what happens at its end is C11's business)
+    let room = (u128::MAX - blk).saturating_mul(bs as u128).saturating_sub(off as u128);
+    if (len as u128) > room {
+        len = room as usize;
+    }
     let data = tape::gen_bytes(t, len);
     let cuts = gen_cuts(t, len, bs, 5);
     let kinds = gen_apply_kinds(t, 5);
